@@ -71,31 +71,39 @@ type backendCall struct {
 	Kind  string
 	Ord   int
 	Err   bool
-	Stamp int64
+	Stamp int64 // UpdatedAt of the state the call returned
+	In    int64 // UpdatedAt of the state the call was made on
+	Cur   int   // player to act in the state the call was made on
 }
 
 // recBackend wraps the native backend: logs calls, can fail chosen calls, counts produced states.
 type recBackend struct {
-	inner    pt.GameBackend
-	mu       sync.Mutex
-	calls    []backendCall
-	inflight int32
-	lastProd int64                             // UpdatedAt of the last state handed to the table
-	failAt   map[int]bool                      // call ordinals that must fail
-	failKind string                            // the next call of this kind must fail (once)
-	onCreate func(opts *pokerface.GameOptions) // observe the options of CreateGame
-	fixDeck  func(gs *pokerface.GameState)     // make the deck reproducible
-	inCreate func()                            // run inside CreateGame (before it returns)
-	settings []*pokerface.PlayerSetting        // last CreateGame player settings (copied)
-	optAnte  int64
-	optBlind pokerface.BlindSetting
+	inner       pt.GameBackend
+	mu          sync.Mutex
+	calls       []backendCall
+	inflight    int32
+	lastProd    int64                             // UpdatedAt of the last state handed to the table
+	failAt      map[int]bool                      // call ordinals that must fail
+	failKind    string                            // the next call of this kind must fail (once)
+	stateOnFail bool                              // a failing call still returns the state the engine computed (a lost reply)
+	delay       func()                            // run inside every call (a slow, remote engine)
+	onCreate    func(opts *pokerface.GameOptions) // observe the options of CreateGame
+	fixDeck     func(gs *pokerface.GameState)     // make the deck reproducible
+	inCreate    func()                            // run inside CreateGame (before it returns)
+	inNext      func()                            // run inside Next (the engine's own step after a closed betting round)
+	settings    []*pokerface.PlayerSetting        // last CreateGame player settings (copied)
+	optAnte     int64
+	optBlind    pokerface.BlindSetting
 }
 
 var errInjected = fmt.Errorf("injected backend failure")
 
-func (b *recBackend) do(kind string, f func() (*pokerface.GameState, error)) (*pokerface.GameState, error) {
+func (b *recBackend) do(kind string, f func() (*pokerface.GameState, error), in ...*pokerface.GameState) (*pokerface.GameState, error) {
 	atomic.AddInt32(&b.inflight, 1)
 	defer atomic.AddInt32(&b.inflight, -1)
+	if b.delay != nil {
+		b.delay()
+	}
 	b.mu.Lock()
 	ord := len(b.calls)
 	fail := b.failAt[ord]
@@ -107,11 +115,17 @@ func (b *recBackend) do(kind string, f func() (*pokerface.GameState, error)) (*p
 	var gs *pokerface.GameState
 	var err error
 	if fail {
+		if b.stateOnFail {
+			gs, _ = f()
+		}
 		err = errInjected
 	} else {
 		gs, err = f()
 	}
-	c := backendCall{Kind: kind, Ord: ord, Err: err != nil}
+	c := backendCall{Kind: kind, Ord: ord, Err: err != nil, Cur: -1}
+	if len(in) == 1 && in[0] != nil {
+		c.In, c.Cur = in[0].UpdatedAt, in[0].Status.CurrentPlayer
+	}
 	if err == nil && gs != nil {
 		c.Stamp = gs.UpdatedAt
 	}
@@ -122,6 +136,9 @@ func (b *recBackend) do(kind string, f func() (*pokerface.GameState, error)) (*p
 	}
 	b.mu.Unlock()
 	if err != nil {
+		if b.stateOnFail {
+			return gs, err
+		}
 		return nil, err
 	}
 	return gs, nil
@@ -152,40 +169,45 @@ func (b *recBackend) CreateGame(opts *pokerface.GameOptions) (*pokerface.GameSta
 	})
 }
 func (b *recBackend) ReadyForAll(gs *pokerface.GameState) (*pokerface.GameState, error) {
-	return b.do("ReadyForAll", func() (*pokerface.GameState, error) { return b.inner.ReadyForAll(gs) })
+	return b.do("ReadyForAll", func() (*pokerface.GameState, error) { return b.inner.ReadyForAll(gs) }, gs)
 }
 func (b *recBackend) PayAnte(gs *pokerface.GameState) (*pokerface.GameState, error) {
-	return b.do("PayAnte", func() (*pokerface.GameState, error) { return b.inner.PayAnte(gs) })
+	return b.do("PayAnte", func() (*pokerface.GameState, error) { return b.inner.PayAnte(gs) }, gs)
 }
 func (b *recBackend) PayBlinds(gs *pokerface.GameState) (*pokerface.GameState, error) {
-	return b.do("PayBlinds", func() (*pokerface.GameState, error) { return b.inner.PayBlinds(gs) })
+	return b.do("PayBlinds", func() (*pokerface.GameState, error) { return b.inner.PayBlinds(gs) }, gs)
 }
 func (b *recBackend) Next(gs *pokerface.GameState) (*pokerface.GameState, error) {
-	return b.do("Next", func() (*pokerface.GameState, error) { return b.inner.Next(gs) })
+	return b.do("Next", func() (*pokerface.GameState, error) {
+		if b.inNext != nil {
+			b.inNext()
+		}
+		return b.inner.Next(gs)
+	}, gs)
 }
 func (b *recBackend) Pay(gs *pokerface.GameState, chips int64) (*pokerface.GameState, error) {
-	return b.do("Pay", func() (*pokerface.GameState, error) { return b.inner.Pay(gs, chips) })
+	return b.do("Pay", func() (*pokerface.GameState, error) { return b.inner.Pay(gs, chips) }, gs)
 }
 func (b *recBackend) Fold(gs *pokerface.GameState) (*pokerface.GameState, error) {
-	return b.do("Fold", func() (*pokerface.GameState, error) { return b.inner.Fold(gs) })
+	return b.do("Fold", func() (*pokerface.GameState, error) { return b.inner.Fold(gs) }, gs)
 }
 func (b *recBackend) Check(gs *pokerface.GameState) (*pokerface.GameState, error) {
-	return b.do("Check", func() (*pokerface.GameState, error) { return b.inner.Check(gs) })
+	return b.do("Check", func() (*pokerface.GameState, error) { return b.inner.Check(gs) }, gs)
 }
 func (b *recBackend) Call(gs *pokerface.GameState) (*pokerface.GameState, error) {
-	return b.do("Call", func() (*pokerface.GameState, error) { return b.inner.Call(gs) })
+	return b.do("Call", func() (*pokerface.GameState, error) { return b.inner.Call(gs) }, gs)
 }
 func (b *recBackend) Allin(gs *pokerface.GameState) (*pokerface.GameState, error) {
-	return b.do("Allin", func() (*pokerface.GameState, error) { return b.inner.Allin(gs) })
+	return b.do("Allin", func() (*pokerface.GameState, error) { return b.inner.Allin(gs) }, gs)
 }
 func (b *recBackend) Bet(gs *pokerface.GameState, chips int64) (*pokerface.GameState, error) {
-	return b.do("Bet", func() (*pokerface.GameState, error) { return b.inner.Bet(gs, chips) })
+	return b.do("Bet", func() (*pokerface.GameState, error) { return b.inner.Bet(gs, chips) }, gs)
 }
 func (b *recBackend) Raise(gs *pokerface.GameState, chipLevel int64) (*pokerface.GameState, error) {
-	return b.do("Raise", func() (*pokerface.GameState, error) { return b.inner.Raise(gs, chipLevel) })
+	return b.do("Raise", func() (*pokerface.GameState, error) { return b.inner.Raise(gs, chipLevel) }, gs)
 }
 func (b *recBackend) Pass(gs *pokerface.GameState) (*pokerface.GameState, error) {
-	return b.do("Pass", func() (*pokerface.GameState, error) { return b.inner.Pass(gs) })
+	return b.do("Pass", func() (*pokerface.GameState, error) { return b.inner.Pass(gs) }, gs)
 }
 
 // one notification from the engine, with what matters copied at callback time
@@ -210,7 +232,8 @@ type Drv struct {
 	keepTables bool
 	max        int
 	rule       string
-	autoSetup  bool // answer OnReadyOpenFirstTableGame with SetUpTableGame (as the competition layer does)
+	autoSetup  bool            // answer OnReadyOpenFirstTableGame with SetUpTableGame (as the competition layer does)
+	tap        func(*pt.Table) // called with the engine's own table on every table update, before anything else
 }
 
 func NewDrv(setting pt.TableSetting, continueInterval int) (*Drv, error) {
@@ -289,6 +312,9 @@ func NewDrvWith(setting pt.TableSetting, continueInterval int, wrap func(pt.Game
 	opts.GameContinueInterval = continueInterval
 	d.te = pt.NewTableEngine(opts, pt.WithGameBackend(be))
 	d.te.OnTableUpdated(func(t *pt.Table) {
+		if tap := d.tap; tap != nil {
+			tap(t)
+		}
 		ev := TEvent{Kind: "updated", Status: string(t.State.Status)}
 		if t.State.GameState != nil {
 			ev.Event = t.State.GameState.Status.CurrentEvent
